@@ -84,34 +84,15 @@ impl HasTracableInfo for SpanInfo {
     }
 }
 
-#[cfg(not(sv_parser_verif))]
 impl HasExtraState<bool> for SpanInfo {
     fn get_extra_state(&self) -> bool {
         in_directive()
     }
 }
 
-#[cfg(sv_parser_verif)]
-impl HasExtraState<verif::Extra> for SpanInfo {
-    fn get_extra_state(&self) -> verif::Extra {
-        verif::Extra {
-            in_directive: in_directive(),
-            info: self.recursive_info,
-        }
-    }
-}
-
 // -----------------------------------------------------------------------------
 
-#[cfg(not(sv_parser_verif))]
 nom_packrat::storage!(AnyNode, bool, 1024);
-
-#[cfg(sv_parser_verif)]
-thread_local!(
-    pub(crate) static PACKRAT_STORAGE: core::cell::RefCell<verif::Memo> = {
-        core::cell::RefCell::new(verif::Memo::new())
-    }
-);
 
 pub fn sv_parser(s: Span) -> IResult<Span, SourceText> {
     init();
